@@ -81,4 +81,69 @@ def check : Nat → List Loan → List Event → Option Nat
 
 def accepts (es : List Event) : Bool := (check 0 [] es).isNone
 
+/-! ### return lifetime (borrow.go checkReturnLifetime)
+
+The variable a returned reference is built from: a local value, a parameter / receiver passed by value (the callee's own copy),
+a parameter / receiver of reference type, or a local reference variable initialised from another variable — by a borrow
+`let q = &v…` when `v` holds a value, by a copy `let q = v` when `v` is itself a reference. -/
+inductive RVar
+  | localVal
+  | paramVal
+  | paramRef
+  | refTo (v : RVar)
+  deriving DecidableEq, Repr, Inhabited
+
+inductive RetForm
+  | borrow (v : RVar)      -- `return &v.path` / `return &'v.path`
+  | ident (v : RVar)       -- `return v`  (v a reference variable)
+  deriving DecidableEq, Repr, Inhabited
+
+/-- SPECIFICATION: does the storage the variable denotes (a value variable: its own; a reference variable: its referent's)
+    belong to the callee's frame? -/
+def RVar.inCallee : RVar → Bool
+  | .localVal | .paramVal => true
+  | .paramRef => false
+  | .refTo v => v.inCallee
+
+def RetForm.dangling : RetForm → Bool
+  | .borrow v | .ident v => v.inCallee
+
+def RVar.isRefVar : RVar → Bool
+  | .paramRef | .refTo _ => true
+  | _ => false
+
+/-- `b.locals`: symbols declared by a `let` in the body -/
+def RVar.isLocalSym : RVar → Bool
+  | .localVal | .refTo _ => true
+  | _ => false
+
+/-- `b.bindings[v].place.base`: checkBorrowInit records the borrowed value variable, bindRefFromIdent copies the binding of
+    the copied reference; a reference initialised from a reference PARAMETER has no binding -/
+def RVar.bindingBase : RVar → Option RVar
+  | .refTo .localVal => some .localVal
+  | .refTo .paramVal => some .paramVal
+  | .refTo .paramRef => none
+  | .refTo (.refTo w) => (RVar.refTo w).bindingBase
+  | _ => none
+
+/-- the symbol is what checkReturnLifetime refuses to hand out: a `let` of the body, or a by-value parameter / receiver -/
+def RVar.refused (v : RVar) : Bool := v.isLocalSym || v == .paramVal
+
+/-- checkReturnLifetime: the base symbol of the returned borrow — for a re-borrow `&q.f` through a reference variable, and
+    for `return q`, the base of that variable's recorded binding (none recorded: nothing to refuse) -/
+def retRejects : RetForm → Bool
+  | .borrow v =>
+    if v.isRefVar then (match v.bindingBase with | some b => b.refused | none => false)
+    else v.refused
+  | .ident v => match v.bindingBase with
+    | some b => b.refused
+    | none => false
+
+/-- the check as it was before the repair: a re-borrow through a local reference variable blamed the variable itself -/
+def retRejectsOld : RetForm → Bool
+  | .borrow v => v.isLocalSym
+  | .ident v => match v.bindingBase with
+    | some b => b.isLocalSym
+    | none => false
+
 end FerretVerif.Borrow
